@@ -32,6 +32,12 @@ void UncompressedFile::read(char * s, std::streamsize n) {
     /* mutex lock */
     std::unique_lock<std::mutex> lock(m_mutex);
 
+    /* a request larger than the buffer must not be held back by the back-pressure of write() */
+    if (n > m_bufferSize) {
+        m_bufferSize = n;
+        tellgChanged.notify_all();
+    }
+
     /* wait until there is sufficient data */
     tellpChanged.wait(lock, [&] {
         return
